@@ -8,6 +8,9 @@ import LpProofs.C09.Object
 namespace Lp.C09
 open Lp.Interp
 
+-- the square root of `Stationary_Values` (fix 51ca844) is a parameter: every theorem below holds for every `SqrtFn`
+variable [SqrtFn]
+
 /-! ## The constructor establishes the table hypotheses -/
 
 theorem strictlyIncreasing_pairwise : ∀ l : List Rat, strictlyIncreasing l = true → l.Pairwise (· < ·)
